@@ -137,8 +137,11 @@ class CriterionProxy:
         return loss
 
 
-def run_trainer(sg, E, NB, NV, NT, evaluator_mode, callbacks, seed, do_fit=True, do_test=True, batch=4):
-    """Runs a real Trainer on a small model with BatchNorm and Dropout. Returns (trace, info)."""
+def run_trainer(sg, E, NB, NV, NT, evaluator_mode, callbacks, seed, do_fit=True, do_test=True, batch=4, ambient=None):
+    """Runs a real Trainer on a small model with BatchNorm and Dropout. Returns (trace, info).
+    ambient: None | "test_in_no_grad" (the caller runs test() inside a no_grad block of its own: event `ambient`
+    before and after) | "ctor_in_no_grad" (the Trainer object is built and compiled inside a no_grad block that is
+    left before fit(): no event - building a Trainer is not an action of the specification)."""
     import pkbar
     nn = sg.nn
     from synapgrad.nn.utils.train import Trainer, Evaluator
@@ -160,12 +163,14 @@ def run_trainer(sg, E, NB, NV, NT, evaluator_mode, callbacks, seed, do_fit=True,
     train_loader, val_loader, test_loader = loader(NB), (loader(NV) if NV > 0 else None), loader(NT)
     opt = sg.optim.SGD(model.parameters(), lr=0.1)
     crit = nn.CrossEntropyLoss()
-    trainer = Trainer(ModelProxy(model, rec), EngineProxy(sg, rec))
-    evaluator = Evaluator(accuracy=True, mode=Evaluator.MULTI_CLASS) if evaluator_mode else None
-    trainer.compile(CriterionProxy(crit, rec), OptProxy(opt, rec), evaluator)
+    import contextlib
+    with (sg.no_grad() if ambient == "ctor_in_no_grad" else contextlib.nullcontext()):
+        trainer = Trainer(ModelProxy(model, rec), EngineProxy(sg, rec))
+        evaluator = Evaluator(accuracy=True, mode=Evaluator.MULTI_CLASS) if evaluator_mode else None
+        trainer.compile(CriterionProxy(crit, rec), OptProxy(opt, rec), evaluator)
     rec.trainer = trainer
     trace = dict(cfg=dict(E=E, NB=NB, NV=NV, NT=NT), tr0=bool(model.training), fit=bool(do_fit), ev=rec.ev)
-    info = dict(E=E, NB=NB, NV=NV, NT=NT, evaluator=bool(evaluator_mode), callbacks=callbacks, seed=seed)
+    info = dict(E=E, NB=NB, NV=NV, NT=NT, evaluator=bool(evaluator_mode), callbacks=callbacks, seed=seed, ambient=ambient, do_fit=do_fit)
 
     # hooks that live outside the repository: Tensor.backward wrapper and the progress bar
     orig_bw = sg.Tensor.backward
@@ -201,6 +206,10 @@ def run_trainer(sg, E, NB, NV, NT, evaluator_mode, callbacks, seed, do_fit=True,
             info["cb_calls"] = "".join(cb_calls)
         if do_test:
             old = sys.stdout
+            outer = sg.no_grad() if ambient == "test_in_no_grad" else None
+            if outer is not None:
+                outer.__enter__()
+                rec.log("ambient")
             try:
                 import io
                 sys.stdout = io.StringIO()
@@ -208,6 +217,9 @@ def run_trainer(sg, E, NB, NV, NT, evaluator_mode, callbacks, seed, do_fit=True,
             finally:
                 sys.stdout = old
             rec.log("test_end")
+            if outer is not None:
+                outer.__exit__(None, None, None)
+                rec.log("ambient")
             info["test_shapes"] = [list(np.shape(y_pred)), list(np.shape(y_true))]
     finally:
         sg.Tensor.backward = orig_bw
